@@ -155,6 +155,17 @@ def go_fuzz(sbase, tier, stats):
                 stats["evaluations"] += 1
                 stats["distribution"]["commands"]["in-module-fuzz-20s"] += 1
                 if rc != 0:
+                    # the fuzzing engine also fails when one of its worker processes dies or stalls (a loaded
+                    # machine is enough): the input it was working on is written out, and running exactly that
+                    # input again, alone, decides whether the decoder is at fault
+                    m = re.search(r"Failing input written to (testdata/fuzz/%s/\w+)" % n, out)
+                    if m and "hung or terminated unexpectedly" in out:
+                        rc2, out2 = run(["-run", "^%s$/%s$" % (n, os.path.basename(m.group(1))), pkg], 180)
+                        if rc2 == 0:
+                            stats["notes"].append("fuzz target %s: a worker process died or stalled; the input it was "
+                                                  "working on passes when run alone (not a decoder failure)" % n)
+                            continue
+                        out = out + "\n--- the failing input run alone ---\n" + out2
                     report(pkg, n, out)
     shutil.rmtree(copy, ignore_errors=True)
 
